@@ -476,6 +476,11 @@ func vC14SpecSx(v vC14Verdict) (vSx, vSx) {
 // direct oracle: judge the implementation's run against the RFC receiver's verdict.
 func vC14Judge(k vC14Case, run vC14Run, v vC14Verdict) (string, string) {
 	if run.panicked {
+		if k.extra >= 999 {
+			// the documented, deliberate panic: "repeated read on failed websocket connection" on the
+			// 1000th call after the failure (the exact boundary is pinned by the model, c14_repeat_panic)
+			return "", ""
+		}
 		return "no-panic", "ReadMessage panicked"
 	}
 	if run.wbad != "" {
@@ -945,10 +950,10 @@ func vC14Alphabet() []vC14Sym {
 }
 
 // all sequences of at most depth symbols in which every symbol but the last keeps the session
-// going.  Non-final symbols have lengths in {0, 125, 126}; at the deepest level the final symbol
-// has RSV = 0 and the right mask bit when reducedLast is set (those two checks do not depend on
-// the history and are covered at the shallower levels).
-func vC14Enumerate(depth int, reducedLast bool, full64Depth int, server bool, emit func(wire []byte, last vC14Sym, d int)) {
+// going.  Non-final symbols have lengths in {0, 125, 126} ({0, 126} when lean is set); at the
+// deepest level the final symbol has RSV = 0 and the right mask bit when reducedLast is set (those
+// two checks do not depend on the history and are covered at the shallower levels).
+func vC14Enumerate(depth int, reducedLast bool, lean bool, full64Depth int, server bool, emit func(wire []byte, last vC14Sym, d int)) {
 	alpha := vC14Alphabet()
 	var rec func(prefix []byte, d int)
 	rec = func(prefix []byte, d int) {
@@ -961,7 +966,7 @@ func vC14Enumerate(depth int, reducedLast bool, full64Depth int, server bool, em
 			w := append(append([]byte{}, prefix...), vC14Ser(vC14SymFrame(s, server, full))...)
 			emit(w, s, d)
 			if d < depth {
-				if s.form > 2 || s.rsv != 0 || s.wrong {
+				if s.form > 2 || s.rsv != 0 || s.wrong || (lean && s.form == 1) {
 					continue
 				}
 				v := vC14Spec(server, 0, w)
@@ -1023,19 +1028,29 @@ func TestVerifC14(t *testing.T) {
 		depth = 2
 	}
 	for _, server := range []bool{false, true} {
-		vC14Enumerate(depth, true, full64, server, func(wire []byte, last vC14Sym, d int) {
+		// the role only decides the mask rule, which does not depend on the history: the deepest
+		// level is enumerated for the client role only, and (thorough, depth 4) with non-final
+		// lengths in {0, 126}
+		dd := depth
+		if server && dd > 2 {
+			dd--
+		}
+		vC14Enumerate(dd, true, dd == 4, full64, server, func(wire []byte, last vC14Sym, d int) {
 			k.count("alphabet-depth", fmt.Sprint(d))
 			limits := []int64{0}
-			if d <= 2 {
-				// limits around the sizes that occur: one frame, two frames
-				limits = append(limits, 125, 126, 251)
-			} else if d < depth {
-				limits = append(limits, 251)
+			if last.rsv == 0 && !last.wrong {
+				// limits around the sizes that occur (one frame, two frames); RSV and mask
+				// violations do not depend on the limit
+				if d <= 2 {
+					limits = append(limits, 125, 126, 251)
+				} else if d < dd {
+					limits = append(limits, 251)
+				}
 			}
 			if last.form == 3 && d <= full64 {
 				// whole 65536-byte payload present: only limits that let it through or just not
 				limits = []int64{0, 65535, 65536}
-				if d > 1 {
+				if d > 1 || last.rsv != 0 || last.wrong {
 					limits = []int64{0}
 				}
 			}
@@ -1045,7 +1060,7 @@ func TestVerifC14(t *testing.T) {
 		})
 	}
 	// 2. random structured sessions, random bytes
-	n := k.N(6000, 150000)
+	n := k.N(6000, 60000)
 	for i := 0; i < n; i++ {
 		if i%10 == 9 {
 			runOne(vC14GenRandomBytes(k.rnd))
@@ -1054,7 +1069,7 @@ func TestVerifC14(t *testing.T) {
 		}
 	}
 	// 3. every cut offset of small sessions
-	ncut := k.N(40, 600)
+	ncut := k.N(40, 250)
 	for i := 0; i < ncut; i++ {
 		c := vC14GenSession(k.rnd)
 		kc, _ := vC14Decode(c)
